@@ -129,6 +129,10 @@ func TestVerifC18(t *testing.T) {
 			"oracle = independent reference lookup (exact > any matching wildcard > default > none) + stability monitor; distinct = distinct (cell kind, table, host)")
 	patterns := []string{"example.com", "a.example.com", "*.example.com", "a.*", "*", "default", "aXexample.com", "*.com", "*example.com"}
 	hosts := []string{"example.com", "a.example.com", "b.example.com", "aXexample.com", "a.org", "default", "x.a.example.com", "com", "other.net", "a.example.comX", "bXexampleXcom"}
+	// equal-length, equally shaped wildcard patterns that all match one host: a
+	// lookup that orders candidates by any key with ties would show here
+	ties := []string{"*.b.c", "a.b.*", "a.*.c"}
+	hosts = append(hosts, "a.b.c", "x.b.c")
 	maxEntries := 4
 	if ev.Thorough() {
 		patterns = append(patterns, "*.a.example.com", "b.*.com", "a.example.*")
@@ -153,6 +157,31 @@ func TestVerifC18(t *testing.T) {
 		}
 	}
 	rec(0, nil)
+	// tables that contain the tie patterns (up to 3 entries from the whole universe in the quick tier)
+	base := patterns
+	patterns = append(append([]string{}, base...), ties...)
+	saved := maxEntries
+	if !ev.Thorough() {
+		maxEntries = 3
+	}
+	var rec2 func(start int, cur []string, hasTie bool)
+	rec2 = func(start int, cur []string, hasTie bool) {
+		if run.Violations() > 10 {
+			return
+		}
+		if len(cur) > 0 && hasTie {
+			tables++
+			c18Check(run, append([]string{}, cur...), hosts, 50, 2)
+		}
+		if len(cur) == maxEntries {
+			return
+		}
+		for i := start; i < len(patterns); i++ {
+			rec2(i+1, append(cur, patterns[i]), hasTie || i >= len(base))
+		}
+	}
+	rec2(0, nil, false)
+	maxEntries = saved
 	// the empty table
 	pcr := NewPreConfigRoute()
 	for _, h := range hosts {
